@@ -436,7 +436,7 @@ def instances_C03(tier):
                     continue
                 for dimform in ("list", "2row"):
                     if n == 1 and dimform == "2row":
-                        pass
+                        continue  # ambiguous calling form, outside requires (see C03 TRUSTED)
                     out.append(inst_ptranspose(n, S, "list", dimform))
                     if len(S) == 1:
                         out.append(inst_ptranspose(n, S, "int", dimform))
